@@ -736,6 +736,14 @@ def normalise(t):
     return t
 
 
+def _subterms(t):
+    yield t
+    if isinstance(t, tuple):
+        for x in t:
+            for y in _subterms(x):
+                yield y
+
+
 def monad_tail(t, rec_names=()):
     """Tail position of a function returning Result:  r.map(f) == Ok(f(r?)),  r.and_then(f) == f(r?),
     eval(x) == Ok(eval(x)?)"""
@@ -745,6 +753,23 @@ def monad_tail(t, rec_names=()):
         return monad_tail(normalise(("icall", t[3], ("try", t[2]))), rec_names)
     if _is(t, "call") and len(t) == 3 and t[1] in rec_names:
         return ("Ok", ("ev", t[2]))
+    if _is(t, "if") and len(t) == 4 and _is(t[1], "iflet") and len(t[1]) == 3 and t[3] == ("Err",):
+        # if let P = x {a} else {Err}  ==  match x {P => a, _ => Err}
+        t = ("match", t[1][2], (t[1][1], t[2]), ("_", t[3]))
+    if _is(t, "match") and len(t) == 4 and all(len(a) == 2 for a in t[2:]):
+        # match x { Some(v) => BODY, None => Err }  (tail)  ==  BODY[v := x.ok_or(..)?]       (`if let Some(v) = x {..} else {Err}`)
+        for (s_, n_) in ((t[2], t[3]), (t[3], t[2])):
+            if _is(s_[0], "pvar") and s_[0][1] == "Option::Some" and len(s_[0]) == 3 and _is(s_[0][2], "bind") and (n_[0] == "_" or (_is(n_[0], "pvar") and n_[0][1] == "Option::None")) and n_[1] == ("Err",):
+                v = s_[0][2][1]
+                uses = sum(1 for x in _subterms(s_[1]) if x == ("var", v))
+                if uses == 1:
+                    def sv(x, v=v, val=("try", ("lift", t[1]))):
+                        if isinstance(x, tuple):
+                            if x == ("var", v):
+                                return val
+                            return tuple(sv(y) for y in x)
+                        return x
+                    return monad_tail(normalise(sv(s_[1])), rec_names)
     if _is(t, "if") and len(t) == 4:
         return ("if", t[1], monad_tail(t[2], rec_names), monad_tail(t[3], rec_names))
     if _is(t, "seq"):
